@@ -97,9 +97,37 @@ class SymBuilder:
         obj.fields.label = obj.label
         for k, v in fields.items():
             obj.fields.d[k] = v
+        obj.pending_init = (lambda I2, o, cls=cls, names=tuple(fields): self._complete_private_state(
+            I2, cls, o, {k: o.fields.d[k] for k in names if k in o.fields.d}))      # the values the object holds when the need arises
         if label:
             self.objects[label] = obj
         return obj
+
+    def _complete_private_state(self, I, cls, obj, fields):
+        """attributes that the real constructor would also have set (caches, counters, ... - private state a refactoring may add) are
+        taken from a scratch instance built by the real `__init__` from the same values; attributes given by the contract stay the
+        objects the contract gave.  Without this a harmless change that adds such an attribute would fail with AttributeError here."""
+        from .interp import VRaise
+        from .values import VFunc
+        init, owner = cls.lookup('__init__')
+        if not isinstance(init, VFunc) or owner is None or getattr(owner, 'builtin', False):
+            return
+        a = init.node.args
+        if a.vararg is not None or a.kwarg is not None:
+            return
+        names = [x.arg for x in a.args][1:]
+        required = names[:len(names) - len(a.defaults)]
+        if any(n not in fields for n in required) or not all(k in names for k in fields):
+            return
+        try:
+            scratch = I.call(cls, [], {k: v for k, v in fields.items()})
+        except VRaise:
+            return                      # the given values are not accepted by the constructor: the contract's `pre` decides what to do
+        except Unsupported:
+            return
+        for k, v in scratch.fields.d.items():
+            if k not in obj.fields.d:
+                obj.fields.d[k] = v
 
     def a_dict(self, I, label, items=None, maybe=None):
         d = VDict(dd_items(I, items), old=True)
